@@ -60,6 +60,7 @@ type X struct {
 	states  []uint64
 	notes   []string
 	trans   int
+	evals   int
 	Replay  bool
 	sample  any
 }
@@ -154,6 +155,9 @@ func (x *X) State(parts ...string) {
 
 // Transitions adds n implementation steps (exchanges, store ops, scheduler steps).
 func (x *X) Transitions(n int) { x.trans += n }
+
+// Evals adds n finer-grained evaluated cases (e.g. file mutants tried inside one execution).
+func (x *X) Evals(n int) { x.evals += n }
 
 // Sample sets a structured description of the execution for the evidence file.
 func (x *X) Sample(v any) { x.sample = v }
@@ -359,6 +363,13 @@ func (e *Explorer) account(t *testing.T, x *X, pan any, stack string) {
 	e.res.Executions++
 	e.res.Points += int64(len(x.Trace))
 	e.res.Transitions += int64(x.trans)
+	if x.evals > 0 {
+		if e.res.Extra == nil {
+			e.res.Extra = map[string]any{}
+		}
+		prev, _ := e.res.Extra["evaluations"].(int)
+		e.res.Extra["evaluations"] = prev + x.evals
+	}
 	if len(x.Trace) > e.res.MaxDepth {
 		e.res.MaxDepth = len(x.Trace)
 	}
